@@ -171,6 +171,14 @@ def check(ctx, otree, leaves0, odsl, cfg):  # noqa: C901, PLR0912, PLR0915
             r6 = outcome_of(lambda: optree.tree_transpose_map(lambda x: gen.build(edsl, U)[0], otree, **kw))
             if r != ('exc', 'ValueError') or r6 != ('exc', 'ValueError'):
                 ctx.violation('empty-structure', f'{PROP}:empty-structure', {'tree': odsl, 'cfg': cfg, 'inner': edsl}, f'{r!r} {r6!r}'[:400])
+            # the same empty inner structure GIVEN explicitly, for all three map variants
+            for variant, fn in (('map', optree.tree_transpose_map), ('path', optree.tree_transpose_map_with_path),
+                                ('acc', optree.tree_transpose_map_with_accessor)):
+                ctx.count()
+                r7 = outcome_of(lambda fn=fn: fn(lambda *a: gen.build(edsl, U)[0], otree, inner_treespec=espec, **kw))
+                if r7 != ('exc', 'ValueError'):
+                    ctx.violation('empty-structure', f'{PROP}:empty-structure',
+                                  {'tree': odsl, 'cfg': cfg, 'inner': edsl, 'given': True, 'variant': variant}, repr(r7)[:400])
     # namespace mismatch
     if cfg['ns'] == 'ns' and m > 0:
         a = optree.tree_structure(un.CN([un.Leaf(0)]), namespace='ns', none_is_leaf=cfg['nil'])
